@@ -411,6 +411,19 @@ def verifyBib (b : Bundle) (sb : SecBlock) : Verdict :=
   | .ok => verifyBibLoop P store crcFn b sb sb.targets 0 false
   | v => v
 
+/-! ## What the codec does to dtn EID text before the AAD is built
+
+  The external AAD is built from *decoded* endpoint IDs (`EidField.m2i` then `i2m`, through
+  `urllib.parse.urlsplit`), not from the received octets. The re-encoding is the identity except for
+  the normalisations below (found by the C03 check on the unchanged tree; reported as a weakness). -/
+
+/-- TAB, CR and LF are removed anywhere in the text; a bare authority (`//node`) gets the path `/`. -/
+def knownEidNorm (ssp : Bytes) : Bytes :=
+  let t := ssp.filter (fun c => c != 9 && c != 13 && c != 10)
+  match t with
+  | 47 :: 47 :: rest => if rest.any (fun c => c == 47 || c == 63 || c == 35) then t else t ++ [47]
+  | _ => t
+
 /-! ## Key selection through a certificate (`_get_cose_key`, x5chain / x5t branch) -/
 
 /-- What `_get_cose_key` learns about the certificate a message refers to. -/
